@@ -378,7 +378,9 @@ func c14r2(p *Prog, r *Reporter) {
 			src, dst := args[len(args)-3], args[len(args)-2]
 			sk, sd := classifyPointer(src)
 			dk, dd := classifyPointer(dst)
-			name := p.FuncName(fn)
+			// a copy inside an unexported helper with a single caller is attributed to that caller, so that extracting
+			// the loop into a helper does not turn a known finding into a new one
+			name := p.FuncName(soleCallerRoot(p, fn))
 			construct := fmt.Sprintf("raw copy #%d: %s → %s", n, sd, dd)
 			if sk == "entity" && dk == "entity" {
 				r.OK(name, construct, p.Pos(site.Pos()), "both operands are entity storage, whose element type has no pointers (checked from go/types)")
@@ -527,4 +529,28 @@ func tail(s string) string {
 		return s[i+1:]
 	}
 	return s
+}
+
+// soleCallerRoot climbs from an unexported function to its caller while there is exactly one static call site (three levels at most).
+func soleCallerRoot(p *Prog, fn *ssa.Function) *ssa.Function {
+	for d := 0; d < 3; d++ {
+		if fn.Object() == nil || fn.Object().Exported() {
+			return fn
+		}
+		var caller *ssa.Function
+		n := 0
+		for _, g := range p.Funcs {
+			for _, site := range callsIn(g) {
+				if isCallTo(site, fn) {
+					n++
+					caller = g
+				}
+			}
+		}
+		if n != 1 || caller == fn {
+			return fn
+		}
+		fn = caller
+	}
+	return fn
 }
